@@ -99,6 +99,15 @@ def make_backend_class(cfg: dict[str, Any] | None = None, extra_attrs: dict[str,
         "output_format_processing_pipeline": defaultdict(ProcessingPipeline),
     }
     a.update(FIELD_PROFILES[c["field_profile"]])
+    fq = tuple(c.get("fref_q", (True, True)))
+    if fq != (True, True):
+        # a slot that receives the field name without the regular quoting is delimited by the target
+        # language itself (angle brackets), so that it stays decodable
+        a["field_equals_field_escaping_quoting"] = fq
+        for k in [k for k in a if k.startswith("field_equals_field_") and k.endswith("_expression")]:
+            for n, on in ((1, fq[0]), (2, fq[1])):
+                if not on:
+                    a[k] = a[k].replace("{field%d}" % n, "⟨{field%d}⟩" % n)
     if c["startswith"]:
         a["startswith_expression"] = "sw({field},{value})"
         a["startswith_expression_allow_special"] = c["sw_special"]
